@@ -15,6 +15,7 @@ CLAIMED = {
  "C08": ("Seeded source histories with create/drop/re-create on all three levels, a start-up snapshot of dropped objects plus a replayed op prefix, and two concurrent delivery streams (API events, op messages) whose relative progress the scheduler chooses, against the real ChannelWriter over a downstream that tags every object with the source incarnation that created it: stale operations must be skipped successfully and never touch a newer incarnation, live ones must be applied.", "4 C08", "Trusted base: the simulated downstream catalog (drops idempotent, other operations fail on missing objects), the start-up snapshot built as C15 describes it; restart of the writer in the middle of a run is not modelled (one incarnation with a replayed prefix)."),
  "C09": ("Same rig as C08 with a name mapping in every run (exact, whole-database, both for one source database, unrelated; source db default/empty/other) and replayable Map.Range order: database routed to, request database and collection names of every downstream call (18 op kinds, 4 API events, 3 probes) are compared with the reference mapping; DML message types are covered in the C07 check.", "4 C09", "Trusted base: reference mapping function (exact entry, else whole-database entry, else identity); database-level names under collection-level-only entries are accepted either way (see DESIGN)."),
  "C12": ("Seeded operation histories with injected store faults against both real metadata backends over simulated etcd / MySQL servers; after every operation the whole state is read back through the public API and compared with a reference map keyed (root, task, collection, channel); failed operations must be all-or-nothing.", "4 C12", NOTE_ST),
+ "C13": ("Seeded interleavings of source-catalog writes with every etcd step of the real CollectionReader/EtcdOp start sequence and with watch deliveries: at quiescence every collection and non-default partition that exists (created) and is selected must have had its replication started by a selecting task, objects that never reached created must not, and partitions must be attributed to their collection.", "4 C13", "Trusted base: SimEtcd (watch events in revision order with PrevKV, effective from Watch() return), the rootcoord write generator (tombstone = snapshot-KV tombstone value), the recording channel manager."),
  "C14": ("Seeded interleavings of 1-3 batchers sharing the global memory budget under a simulated clock, with callback failures injected at any flush: every callback must receive exactly the packs buffered since the last flush in arrival order, errors must reach the caller, nothing may be left at shutdown and the global counter must be zero whenever all batchers are empty.", "4 C14", "Trusted base: the scripted callback and the bubble clock; the batcher itself is sequential, the simulator supplies the clock, the interleaving of batchers around the shared counter and the failure points."),
  "C16": ("Seeded search over channel counts (both directions and equal), downstream placements and start orders on the real channel manager; after every scheduler step the assignment table (read through a verif accessor) must be stable (no entry ever changes or disappears) and within quota (no channel serves more than ceil(larger/smaller) channels of the other side; one-to-one with equal counts).", "4 C16", NOTE_R + " Totality (every channel in use eventually assigned) is not judged."),
  "C17": ("Seeded histories of shard reports, removals and reloads against the real ReplicateMeteImpl over the real etcd / MySQL replicate stores (simulated servers) and an in-memory store; memory, store and the union of reports must agree after every step and readiness must equal union == targets.", "4 C17", NOTE_ST),
